@@ -409,6 +409,16 @@ def cmp_c16_r(payload, impl, model):
     doclen = len(payload.split()[1]) // 2
     if fmtc == "j" and impl.startswith("err fault") and (pre.startswith("ok") or k == doclen):
         return None   # a bare top-level number has no terminator: the fault is met while looking for one
+    if fmtc == "j" and impl.startswith("err fault") and 0 < k <= doclen:
+        try:
+            cut = bytes.fromhex(payload.split()[1])[:k]
+        except ValueError:
+            cut = b""
+        if cut and cut[-1:] in b"0123456789.eE+-" and pre.startswith("err other"):
+            # the fault is met while a number is being scanned: the decoder reports the fault and never gets to
+            # classify the digits read so far (the model, reading the cut text as a whole input, calls them
+            # out of range: TruncProof.ends_in_unrepresentable_number) - an error is reported either way
+            return None
     return mism("outside the item: model %s impl %s" % (pre[:80], impl[:80]))
 
 
